@@ -138,6 +138,33 @@ def run(ctx):
         ctx.case(("reg", fam, ts, off, si, i, n))
         ctx.count("outcome", got.split()[0] if got.startswith("ok") else got.split()[1])
         ctx.count("family", fam)
+    # long windows: the k-th timestamp must be start + (i + k)*interval for every k, also thousands of samples in
+    # (whatever the generator does internally: chunking, re-anchoring, vectorising); closed form only, no model lines
+    for case in range(6 if ctx.quick else 40):
+        fam = ("dt", "ht", "bt")[case % 3]
+        si = rng.choice([1, 3, 333333, 10**6 + 1, -7, -(10**6)] + ([(1 << 64) // 3 + 1] if fam != 'dt' else []))
+        i = rng.choice([1, 2, 3, 17, 4095, 4096, 4097, 10**6 + 1, rng.randint(1, 10**5)])
+        n = rng.choice([4097, 4100, 5000, 8193, 8200, 12289, 16385 + rng.randint(0, 40)] + ([65537, 70001] if not ctx.quick else []))
+        alo, ahi, _, _ = FAMR[fam]
+        ts = (alo + ahi) // 2 if fam != "bt" else rng.choice([0, 10**30, -(10**30)])
+        off = rng.choice([None, 5, -5])
+        try:
+            timing = Timing.create_with_regular_interval(tv.from_model(R[fam], si), tv.from_model(A[fam], ts),
+                                                         None if off is None else tv.from_model(R[fam], off))
+        except OverflowError:
+            continue
+        o = outcome(lambda: [val(tv, x) for x in timing.get_timestamps(i, n)])
+        got = ("ok " + render(o[1])) if o[0] == "ok" else "err " + o[1]
+        want = exp_regular(fam, ts, off, si, i, n)
+        if got != want:
+            wl = [ts + (off or 0) + (i + k) * si for k in range(n)]
+            bad = next((k for k, (a, b) in enumerate(zip(o[1], wl)) if a != b), None) if o[0] == "ok" else None
+            ctx.violation(what="regular get_timestamps (long window)", fam=fam, timestamp=ts, offset=off, interval=si, i=i, n=n,
+                          first_wrong_index=bad, observed=(got[:200] if bad is None else o[1][bad]),
+                          required=(want[:200] + " (timestamp + offset + (i+k)*interval, exactly)" if bad is None else wl[bad]))
+        ctx.count("long_outcome", got.split()[0] if got.startswith("ok") else got.split()[1])
+        ctx.case(("long", fam, ts, off, si, i, n))
+        ctx.count("window", "long(>4096)")
     # REGULAR / NONE without timestamp information
     for fam in ("dt", "ht", "bt"):
         for mode in ("NONE", "REGULAR"):
@@ -164,7 +191,11 @@ def run(ctx):
         step = rng.choice([0, 1, 5, 10**6, -1, -10**6])
         stamps = [base + k * step for k in range(m)]
         stamps = [s for s in stamps if alo <= s < ahi]
-        timing = Timing.create_with_irregular_interval([tv.from_model(A[fam], s) for s in stamps])
+        oc = outcome(Timing.create_with_irregular_interval, [tv.from_model(A[fam], s) for s in stamps])
+        if oc[0] != "ok":
+            ctx.violation(what="create_with_irregular_interval", fam=fam, seq=stamps, observed=show(oc), required="accepted (monotonic)")
+            continue
+        timing = oc[1]
         i = rng.choice([0, 1, 2, 3, len(stamps), len(stamps) + 1, -1, rng.randint(0, 8)])
         n = rng.choice([0, 1, 2, 3, len(stamps), len(stamps) + 1, -1, max(0, len(stamps) - i), max(0, len(stamps) - i) + 1])
         o = outcome(lambda: [val(tv, x) for x in timing.get_timestamps(i, n)])
@@ -190,17 +221,32 @@ def run(ctx):
         if rng.random() < 0.2 and s:
             s.append(s[-1] + rng.choice([-1, 1]))
         seqs.append(s)
+    # bintime instants are 128-bit tick counts: most of them lie outside the years 1..9999 of datetime/hightime, and
+    # Timing must order, store and return those like any other (bases "btlo"/"bthi" sit next to the INT128 limits)
+    far = {"btlo": lambda x: I128_MIN + 10**6 + 7 + x * 1000, "bthi": lambda x: I128_MAX - 10**6 + x * 1000,
+           "btfar": lambda x: (1 << 100) + x * (1 << 64)}
     for s in seqs:
-        for fam in ("dt", "bt", "ht"):
-            objs = [tv.from_model(A[fam], 10**15 + x * 1000) for x in s]
-            mono = _are_timestamps_monotonic(objs)
+        for fam in ("dt", "bt", "ht", "btlo", "bthi", "btfar"):
+            f = far.get(fam, lambda x: 10**15 + x * 1000)
+            objs = [tv.from_model(A[fam[:2]], f(x)) for x in s]
+            om = outcome(_are_timestamps_monotonic, objs)
+            mono = om[1] if om[0] == "ok" else None
             want = all(a <= b for a, b in zip(s, s[1:])) or all(a >= b for a, b in zip(s, s[1:]))
             if mono is not want:
-                ctx.violation(what="_are_timestamps_monotonic", seq=s, fam=fam, observed=mono, required=want)
+                ctx.violation(what="_are_timestamps_monotonic", seq=s, fam=fam, ticks=[f(x) for x in s][:6],
+                              observed=show(om), required=want)
             o = outcome(Timing.create_with_irregular_interval, objs)
             if want and o[0] != "ok" or (not want and o[:2] != ("err", "ValueError")):
-                ctx.violation(what="create_with_irregular_interval", seq=s, fam=fam, observed=show(o),
-                              required="accepted" if want else "ValueError")
+                ctx.violation(what="create_with_irregular_interval", seq=s, fam=fam, ticks=[f(x) for x in s][:6],
+                              observed=show(o), required="accepted" if want else "ValueError")
+            if want and o[0] == "ok" and fam.startswith("bt") and s:
+                i = len(s) // 3
+                og = outcome(lambda: [val(tv, x) for x in o[1].get_timestamps(i, len(s) - i)])
+                if og != ("ok", [f(x) for x in s[i:]]):
+                    ctx.violation(what="irregular get_timestamps (bintime, whole tick range)", seq=s, fam=fam, i=i,
+                                  observed=show(og)[:300], required=[f(x) for x in s[i:]][:6])
+            ctx.count("mono_family", fam)
+        mono = want
         reqs.append((f"timing mono {render(s)}", "True" if want else "False"))
         # translation validation of the generated scan (Gen/Irregular.lean) on the same sequences
         reqs.append(("gen Irregular._are_timestamps_monotonic " + " ".join(str(v) for v in s), "True" if mono else "False"))
